@@ -588,6 +588,7 @@ package kvql
 //@ define gapLo(idx []int, j Int) Int = ite(j == 0, 0, idx[j - 1] + 1)
 //@ func (p *FullScanPlan) Batch(ctx *ExecuteCtx) (ret []KVPair, err error)
 //@   props C01 C03 C13 C05
+//@   ensures[C03] ownrows: err == nil ==> isnil(ret) || fresh(ret)
 //@   ensures[C13] norows: err != nil ==> len(ret) == 0
 //@   splitlatch
 //@   ghost j Int
@@ -639,6 +640,7 @@ package kvql
 // consume one pair beyond the region (the first key without the prefix): s = 1 in the invariants.
 //@ func (p *PrefixScanPlan) Batch(ctx *ExecuteCtx) (ret []KVPair, err error)
 //@   props C01 C03 C13 C18 C05
+//@   ensures[C03] ownrows: err == nil ==> isnil(ret) || fresh(ret)
 //@   ensures[C13] norows: err != nil ==> len(ret) == 0
 //@   splitlatch
 //@   ghost j Int
@@ -707,6 +709,7 @@ package kvql
 // region (the first key above End).
 //@ func (p *RangeScanPlan) Batch(ctx *ExecuteCtx) (ret []KVPair, err error)
 //@   props C01 C03 C13 C18 C05
+//@   ensures[C03] ownrows: err == nil ==> isnil(ret) || fresh(ret)
 //@   ensures[C13] norows: err != nil ==> len(ret) == 0
 //@   splitlatch
 //@   ghost j Int
@@ -776,6 +779,7 @@ package kvql
 // existential over the result, which the solvers do not carry through the three loops.)
 //@ func (p *MultiGetPlan) Batch(ctx *ExecuteCtx) (ret []KVPair, err error)
 //@   props C01 C03 C13 C18
+//@   ensures[C03] ownrows: err == nil ==> isnil(ret) || fresh(ret)
 //@   ensures[C13] norows: err != nil ==> len(ret) == 0
 //@   splitlatch
 //@   ghost j Int
